@@ -339,6 +339,39 @@ def run(index, rep, tier):
         from . import c06
         rep.floor("R05.2", "field-to-field merges in SplitDistribution.update", 5, c06.like_to_like_rule(index, rep, "R05.2", [SD + ".update"]))
 
+    # ---------------- R05.10
+    with rep.section("R05.10"):
+        rep.rule("R05.10", "summaries fail independently: in statistics.summarize each try-block computes one statistic (one statistics function per block), so a sample too small for the quantiles cannot blank the median; percent scaling of support values is applied once (a value already multiplied by 100 is not handed to the label composer, which scales itself)")
+        sm = index.function("dendropy.calculate.statistics.summarize")
+        stat_fns = {f.name for f in index.functions_in_module("dendropy.calculate.statistics", include_methods=False)}
+        ntry = 0
+        for tr in sm.node.body:
+            if not isinstance(tr, ast.Try):
+                continue
+            ntry += 1
+            called = sorted({call_name(c) for st in tr.body for c in ast.walk(st) if isinstance(c, ast.Call) and isinstance(c.func, ast.Name) and c.func.id in stat_fns})
+            rep.check(len(called) <= 1, "R05.10", sm.qualname, "one try-block computes %s" % called, fn_where(sm, tr), "summarize: block at line %d computes %s only" % (tr.lineno, called or "a built-in statistic"),
+                      "statistics.summarize computes %s in one try-block: when one of them refuses the sample (quantile_5_95 raises for 11-29 values) the handler also blanks the others, so e.g. the median of a split's edge lengths is reported as None although it is perfectly defined" % called)
+        rep.floor("R05.10", "try-blocks in statistics.summarize", 4, ntry)
+        ts = "dendropy.calculate.treesum.TreeSummarizer"
+        mp = index.function(ts + ".map_split_support_to_node")
+        scaled = set()
+        for iff in walk_no_nested(mp.node):
+            if isinstance(iff, ast.If) and "support_as_percentages" in norm(iff.test):
+                t_, tb_, fb_ = pos_if(iff)
+                for a in [x for st in tb_ for x in ast.walk(st)]:
+                    if isinstance(a, ast.Assign) and isinstance(a.targets[0], ast.Name) and isinstance(a.value, ast.BinOp) and isinstance(a.value.op, ast.Mult) and 100 in (const_value(a.value.left), const_value(a.value.right)):
+                        scaled.add(a.targets[0].id)
+        scalers = {m.name for m in index.methods_of(ts) if any(isinstance(b, ast.BinOp) and isinstance(b.op, ast.Mult) and 100 in (const_value(b.left), const_value(b.right)) and (names_in(b) & set(m.params)) for b in ast.walk(m.node))
+                   and m.name != "map_split_support_to_node"}
+        if not scaled or not scalers:
+            raise AnalysisError("R05.10: percent scaling in TreeSummarizer not recognised (scaled=%s scalers=%s)" % (scaled, scalers))
+        for c in calls_in(mp.node):
+            if call_name(c) in scalers:
+                bad = [a for a in list(c.args) + [k.value for k in c.keywords] if isinstance(a, ast.Name) and a.id in scaled]
+                rep.check(not bad, "R05.10", mp.qualname, "already-scaled `%s` handed to %s" % (bad[0].id if bad else "", call_name(c)), fn_where(mp, c), "%s receives the raw frequency" % call_name(c),
+                          "map_split_support_to_node passes `%s` - already multiplied by 100 under support_as_percentages - to %s, which multiplies by 100 itself under the same option: with labels and percentages both on, a split of frequency 6/7 is labelled 8571.4" % (bad[0].id if bad else "", call_name(c)))
+
     # ---------------- R05.9
     with rep.section("R05.9"):
         rep.rule("R05.9", "edge lengths are read off the right edges: count_splits_on_tree pairs each split with its edge through tree.bipartition_edge_map, which every re-encode must drop unconditionally (C01 R01.5)")
